@@ -6,7 +6,8 @@ import hashlib
 import json
 import random
 
-NESTED = {"inA": "InA", "inM": "InM", "e2": "E2", "e2x": "E2x", "e2u": "E2u", "io": "Io", "iox": "Iox", "e2m": "E2m", "e2mu": "E2mu", "e2a": "E2a", "e2au": "E2au"}
+NESTED = {"inA": "InA", "inM": "InM", "e2": "E2", "e2x": "E2x", "e2u": "E2u", "io": "Io", "iox": "Iox", "e2m": "E2m", "e2mu": "E2mu", "e2a": "E2a", "e2au": "E2au", "eu": "Eu", "eux": "Eux"}
+COD_TYS = ("pcd", "pce", "pcb", "pcw")
 
 
 def canon(s):
@@ -16,9 +17,11 @@ def canon(s):
 def rust_ty(f):
     base = {"u8": "u8", "str": "String", "bytes": "Vec<u8>", "cu": "u8", "bstr": "&'a str", "bslice": "&'a minicbor::bytes::ByteSlice",
             "bu8": "&'a [u8]", "cowb": "std::borrow::Cow<'a, str>", "cown": "std::borrow::Cow<'a, str>",
-            "cowbu8": "std::borrow::Cow<'a, [u8]>"}.get(f["ty"]) or NESTED[f["ty"]]
+            "cowbu8": "std::borrow::Cow<'a, [u8]>", "pcd": "u8", "pce": "u8", "pcb": "u8", "pcw": "u8"}.get(f["ty"]) or NESTED[f["ty"]]
     if f.get("skip"):
         return "u8"
+    if f["ty"] in COD_TYS:              # always an Option underneath; `opt` says whether it is spelled so (see spec/Derive.tla!CodTys)
+        return {"plain": "Option<u8>", "boxed": "Box<Option<u8>>", "alias": "OptU8"}[f.get("osp", "plain")]
     if f["opt"] and f["ty"] != "cu":
         sp = f.get("osp", "plain")
         if sp == "boxed":
@@ -71,6 +74,14 @@ def field_attr(f, rng):
             extra.append('with = "minicbor::bytes"')
         else:
             extra += ['encode_with = "minicbor::bytes::encode"', 'decode_with = "minicbor::bytes::decode"', 'cbor_len = "minicbor::bytes::cbor_len"']
+    if f["ty"] == "pcd":
+        extra.append('decode_with = "crate::pass::decode"')
+    if f["ty"] == "pce":
+        extra += ['encode_with = "crate::pass::encode"', 'cbor_len = "crate::pass::cbor_len"'] if rng.random() < 0.5 else ['encode_with = "crate::pass::encode"']
+    if f["ty"] == "pcb":
+        extra += ['encode_with = "crate::pass::encode"', 'decode_with = "crate::pass::decode"', 'cbor_len = "crate::pass::cbor_len"']
+    if f["ty"] == "pcw":
+        extra.append('with = "crate::pass"')
     if f["ty"] == "cu":
         if rng.random() < 0.5:
             extra.append('with = "crate::cu"')
@@ -95,6 +106,9 @@ def from_expr(f, src):
              "cowb": f"std::borrow::Cow::Owned(fv_str(&{src}))", "cown": f"std::borrow::Cow::Owned(fv_str(&{src}))",
              "cowbu8": f"std::borrow::Cow::Owned(fv_bytes(&{src}))"}.get(ty) \
         or f"<{NESTED.get(ty, 'u8')} as Dv>::from_json(&{src}[\"sub\"])"
+    if ty in COD_TYS:
+        e = f"if {src}[\"some\"] == true {{ Some(fv_u8(&{src})) }} else {{ None }}"
+        return f"Box::new({e})" if f.get("osp") == "boxed" else e
     if f["opt"] and ty != "cu":
         e = f"if {src}[\"some\"] == true {{ Some({inner}) }} else {{ None }}"
         return f"Box::new({e})" if f.get("osp") == "boxed" else e
@@ -111,6 +125,9 @@ def to_expr(f, val):
         return {"u8": f"j_u8(*{v})", "cu": f"j_u8(*{v})", "str": f"j_bytes({v}.as_bytes())", "bytes": f"j_bytes({v})",
                 "bstr": f"j_borrowed({v}.as_bytes())", "bslice": f"j_borrowed(&{v}[..])", "bu8": f"j_borrowed({v})",
                 "cowb": f"j_cow({v}, true)", "cown": f"j_cow({v}, false)", "cowbu8": f"j_cowb({v})"}.get(ty) or f"j_sub({v}.to_json())"
+    if ty in COD_TYS:
+        scrut = f"&**{val}" if f.get("osp") == "boxed" else val
+        return f"match {scrut} {{ Some(x) => j_u8(*x), None => j_none() }}"
     if f["opt"] and ty != "cu":
         scrut = f"&**{val}" if f.get("osp") == "boxed" else val
         return f"match {scrut} {{ Some(x) => {one('x')}, None => j_none() }}"
